@@ -544,6 +544,7 @@ func v01DrawCase(rt *rapid.T) *v01Case {
 		}
 	}
 	// details
+	usedTok := map[string]bool{}
 	n := 0
 	for r, ops := range c.Rounds {
 		for _, o := range ops {
@@ -556,7 +557,8 @@ func v01DrawCase(rt *rapid.T) *v01Case {
 				var cands []*v01Op
 				for _, ops2 := range c.Rounds[:r] {
 					for _, x := range ops2 {
-						if x.Kind == v01KAuthGood && x.Token != "\x00" && c.ParkClose[x.Conn] != x.Round && x.Conn != o.Conn {
+						// (a connection presents a given string at most once: calls are attributed to ops by connection + string)
+						if x.Kind == v01KAuthGood && x.Token != "\x00" && c.ParkClose[x.Conn] != x.Round && x.Conn != o.Conn && !usedTok[fmt.Sprintf("%d|%s", o.Conn, x.Token)] {
 							cands = append(cands, x)
 						}
 					}
@@ -624,6 +626,7 @@ func v01DrawCase(rt *rapid.T) *v01Case {
 				if o.pairOf != nil && o.Token == "\x00" {
 					o.Token = "wrong-password#" + o.Label
 				}
+				usedTok[fmt.Sprintf("%d|%s", o.Conn, o.Token)] = true
 				o.CCRX = rapid.SampledFrom([]string{"-", "0", "0", "1000000000", "junk"}).Draw(rt, name+"/rx")
 				if rapid.Bool().Draw(rt, name+"/pad") {
 					o.Pad = strings.Repeat("z", 1+rapid.IntRange(0, 300).Draw(rt, name+"/padlen"))
